@@ -42,6 +42,10 @@ CHECKS = {
          "Every documented route and a set of unknown paths are requested with every HTTP method, with valid and invalid CIDs/paths/peer ids/bodies and every pin option valid and invalid (alone and combined), with and without configured credentials (missing, wrong user, wrong password, right). The recorder must show zero RPCs for malformed or unauthenticated requests and exactly the route's RPC with the generator's CID/path/options otherwise (max_depth consistent with mode); every body must be a single JSON document; each client-library method must deliver its arguments unchanged and return the scripted answer.",
          "The route table is data in the harness (the router is unexported); a route added by a change is still covered by the unknown-path and credential sweeps. libp2p-http transport not exercised (QUIC stub). Unknown 'mode' values and unparsable peer ids in user-allocations are accepted by design and not generated as invalid. Status-filter unions are not sent through the client (their textual form is not one-to-one).",
          "DESIGN.md §4 C11"),
+ "C12": ("exploration", "runtime request/response monitor: real ipfsproxy.Server between an HTTP client, a recording fake IPFS daemon and a recording RPC service",
+         "Hijacked routes are requested in ?arg= and /{arg} style with valid and invalid paths and their options under POST/GET/PUT; the same paths under other methods and arbitrary other paths/queries/bodies under every method. Hijacked+valid must perform exactly the corresponding recorded cluster operations with the requested path/options and never reach the daemon under a hijacked method; an error answer with all RPCs succeeding must leave zero mutating RPCs; everything else must arrive at the daemon with identical method, path, raw query and body and the daemon's unique status/body must come back.",
+         "Multi-segment /{arg} forms and unclean paths are not generated. The proxy's own OPTIONS/header-extraction requests to the daemon are ignored. The fake daemon stands for go-ipfs (fidelity of its error conventions is an assumption).",
+         "DESIGN.md §4 C12"),
 }
 
 ALL = ["C%02d" % i for i in range(1, 19)]
